@@ -206,7 +206,7 @@ class Float:
 
         Returns this `Float` with no context (`self.ctx is None`).
         """
-        return Float(s=False, x=self, ctx=None)
+        return Float(x=self, ctx=None)
 
     def __abs__(self):
         """
